@@ -44,7 +44,9 @@ b._bkg_stats = None
 check(state_key(vars(b), []) != kb, 'hidden field _bkg_stats not visible in the key')
 for kind, c in [('psf', c09.PSF_CONFIGS[2]), ('psf', c09.PSF_CONFIGS[6]), ('finder', c09.SF_CONFIGS[2]),
                 ('ellipse', {'geometry': 'preset'}), ('localbkg', {}), ('gridded', {}),
-                ('profile', c09.PROF_CONFIGS[2]), ('aperture', {'cls': 'EllipticalAnnulus'})]:
+                ('profile', c09.PROF_CONFIGS[2]), ('aperture', {'cls': 'EllipticalAnnulus'}),
+                ('aperture', {'cls': 'CircularAperture', 'ctor': 'ndarray'}), ('psf', c09.PSF_CONFIGS[7]),
+                ('psf', c09.PSF_CONFIGS[9])]:
     sysm = c09.make_system(kind, c, 0)
     st1, st2 = sysm.initial(), sysm.initial()
     k1, k2 = sysm.canon(st1), sysm.canon(st2)
@@ -60,6 +62,65 @@ sc(np.arange(10.0))
 check(dig(sc) == d0, 'SigmaClip bookkeeping leaks into configuration digests')
 sc.sigma = 2.0
 check(dig(sc) != d0, 'public configuration change not seen')
+
+# the configuration digest of a PSF model follows its parameter VALUES and fixed flags, not its identity
+from photutils.psf import CircularGaussianPRF  # noqa: E402
+m1, m2 = CircularGaussianPRF(fwhm=2.4), CircularGaussianPRF(fwhm=2.4)
+check(dig(m1) == dig(m2), 'equal PSF models have different configuration digests')
+m2.fwhm = 2.9
+check(dig(m1) != dig(m2), 'a changed parameter value of the PSF model is not seen by the configuration digest')
+m2.fwhm = 2.4
+m2.x_0 = 3.0
+check(dig(m1) != dig(m2), 'a changed position value of the PSF model is not seen by the configuration digest')
+m2.x_0 = 0.0
+m2.fwhm.fixed = False
+check(dig(m1) != dig(m2), 'a changed fixed flag of the PSF model is not seen by the configuration digest')
+
+# aperture positions containers and the caller's in-place writes: the ndarray handed over is float64 (the only
+# container an aperture could keep without converting), a write really changes the container handed over, and a
+# copy taken before does not move
+for val in c09.AP_POS:
+    for rep in c09.AP_REPS:
+        for how in c09.AP_CALLER_WRITES:
+            cont = c09._ap_container(val, rep)
+            before = np.array(cont, dtype=float)
+            check(np.array_equal(before, np.array(val, dtype=float)), f'container {rep} of {val} has other values')
+            if rep == 'ndarray':
+                check(isinstance(cont, np.ndarray) and cont.dtype == np.float64, 'ndarray representation is not float64')
+            c09._ap_caller_write(cont, how)
+            check(not np.array_equal(np.array(cont, dtype=float), before), f'caller write {how} into {rep} changed nothing')
+st = c09.make_system('aperture', {'cls': 'CircularAperture', 'ctor': 'ndarray'}, 0).initial()
+check(isinstance(st.aux['caller'], np.ndarray), 'ndarray constructor system does not keep the caller array')
+sysm = c09.make_system('aperture', {'cls': 'CircularAperture'}, 0)
+st = sysm.initial()
+k0 = sysm.canon(st)
+sysm.apply(st, ('set', 'positions', 0, 'ndarray'), lambda *a, **k: None)
+check(isinstance(st.aux['caller'], np.ndarray) and not st.aux['caller_wrote'], 'setter does not record the caller array')
+k1 = sysm.canon(st)
+sysm.apply(st, ('caller_writes', 'shift-all'), lambda *a, **k: fails.append(f'unexpected report {a}'))
+check(st.aux['caller_wrote'] and st.aux['vals']['positions'] == c09.AP_POS[0], 'caller write changed the values as passed')
+
+# result-consuming requests are enabled only once the history holds a call, and at most PSF_MAX_RESULT_OPS of them
+ps = c09.make_system('psf', c09.PSF_CONFIGS[6], 0)
+
+
+class _H:
+    def __init__(self, hist):
+        self.hist = hist
+
+
+call = ps.calls()[0]
+res = c09.PSF_RESULT_OPS
+check(all(o[0] == 'call' for o in ps.ops(_H([]))), 'result requests enabled before any call')
+check(set(res) <= set(ps.ops(_H([call]))), 'result requests not enabled after a call')
+check(set(res) <= set(ps.ops(_H([call, res[1]]))), 'second result request not enabled')
+check(not (set(res) & set(ps.ops(_H([call, res[1], res[0]])))), 'more than PSF_MAX_RESULT_OPS result requests')
+check(not (set(res) & set(ps.ops(_H([call, call])))), 'quick tier: result requests after two calls')
+pt = c09.make_system('psf', c09.PSF_CONFIGS[6], 0, 'thorough')
+check(set(res) <= set(pt.ops(_H([call, call]))), 'thorough tier: result requests not enabled after two calls')
+check(ps.last_call([call, res[0], ps.calls()[1], res[1]]) == ps.calls()[1], 'last_call')
+check(not ps.nontrivial((call, res[0])) and ps.nontrivial((call, res[0], res[1])) and ps.nontrivial((call, call)),
+      'nontrivial rule of the photometry histories')
 
 # (b) compare --------------------------------------------------------------------------------------
 check(compare(np.array([1.0, np.nan]), np.array([1.0, np.nan])) is None, 'NaN-aware equality')
